@@ -113,3 +113,59 @@ Proof.
   - exact (exec_xor2 ir m). - exact (exec_xor3 ir m). - exact (exec_mul2 ir m). - exact (exec_mul3 ir m).
 Qed.
 Print Assumptions C02_opcode_arms.
+
+(* ---- whole-instruction final states (register-to-register word forms): destination value, all four
+   condition codes, every other register, and memory ---- *)
+From Dmd Require Import Proofs.AluFinal.
+
+Theorem C02_add_word_final_state :
+  forall ir m rs rt rd,
+    0 <= rd <= 10 -> word (R m rs) -> word (R m rt) ->
+    (iopcode ir = 156 /\ reg_word ir 0 rs /\ reg_word ir 1 rd /\ rt = rd)
+    \/ (iopcode ir = 220 /\ reg_word ir 0 rs /\ reg_word ir 1 rt /\ reg_word ir 2 rd) ->
+    let a := R m rs in let b := R m rt in
+    exists m', exec ir m = Ok (ilen ir) m'
+      /\ word_outcome m m' rd ((a + b) mod 2 ^ 32) (Z.testbit ((a + b) mod 2 ^ 32) 31) ((a + b) mod 2 ^ 32 =? 0)
+           (negb ((-2147483648 <=? s32 a + s32 b) && (s32 a + s32 b <? 2147483648))) (2 ^ 32 <=? a + b).
+Proof.
+  intros ir m rs rt rd Hd Wa Wb [[Ho [S [D ->]]]|[Ho [S [T D]]]].
+  - exact (addw2_final ir m rs rd Ho S D Hd Wa Wb).
+  - exact (addw3_final ir m rs rt rd Ho S T D Hd Wa Wb).
+Qed.
+Print Assumptions C02_add_word_final_state.
+
+Theorem C02_sub_word_final_state :
+  forall ir m rs rt rd,
+    0 <= rd <= 10 ->
+    (iopcode ir = 188 /\ reg_word ir 0 rs /\ reg_word ir 1 rd /\ rt = rd)
+    \/ (iopcode ir = 252 /\ reg_word ir 0 rs /\ reg_word ir 1 rt /\ reg_word ir 2 rd) ->
+    let a := R m rt in let b := R m rs in
+    exists m', exec ir m = Ok (ilen ir) m'
+      /\ R m' rd = (a - b) mod 2 ^ 32
+      /\ flag F_N m' = Z.testbit ((a - b) mod 2 ^ 32) 31 /\ flag F_Z m' = ((a - b) mod 2 ^ 32 =? 0)
+      /\ flag F_C m' = (a <? b) /\ flag F_V m' = false
+      /\ (forall i, 0 <= i <= 15 -> i <> rd -> i <> 11 -> R m' i = R m i) /\ mbus m' = mbus m.
+Proof.
+  intros ir m rs rt rd Hd [[Ho [S [D ->]]]|[Ho [S [T D]]]].
+  - exact (subw2_final ir m rs rd Ho S D Hd).
+  - exact (subw3_final ir m rs rt rd Ho S T D Hd).
+Qed.
+Print Assumptions C02_sub_word_final_state.
+
+Theorem C02_logic_mul_word_final_state :
+  forall ir m f dst rs rt rd,
+    std_word_arm (iopcode ir) = Some (f, dst) -> reg_word ir 0 rs -> reg_word ir 1 rt -> reg_word ir dst rd ->
+    0 <= rd <= 10 ->
+    let res := f (R m rs) (R m rt) in
+    exists m', exec ir m = Ok (ilen ir) m' /\ word_outcome m m' rd res (Z.testbit res 31) (res =? 0) false false.
+Proof. exact logic_mul_word_final. Qed.
+Print Assumptions C02_logic_mul_word_final_state.
+
+(* the premises are met by ordinary instructions:  ADDW2 %r1,%r2  and  XORW3 %r1,%r2,%r3 *)
+Example C02_final_state_premises :
+  let rg r := mkOperand 1 MRegister DWord None (Some r) 0 in
+  let add2 := mkInstr 156 3 (rg 1) (rg 2) operand_clear operand_clear in
+  let xor3 := mkInstr 244 4 (rg 1) (rg 2) (rg 3) operand_clear in
+  (iopcode add2 = 156 /\ reg_word add2 0 1 /\ reg_word add2 1 2)
+  /\ (std_word_arm (iopcode xor3) = Some (Z.lxor, 2) /\ reg_word xor3 0 1 /\ reg_word xor3 1 2 /\ reg_word xor3 2 3).
+Proof. cbv zeta. unfold reg_word. cbn. repeat split. Qed.
